@@ -48,20 +48,36 @@ func New(f *Faults) *DB {
 	return &DB{F: f}
 }
 
-// Register makes the engine name "verifmem" available to kvdb.CreateKVInstance;
-// every instance is looked up by its DBPath in the given registry so that a
-// "reopen" sees the same data.
-func Register(reg map[string]*DB, f *Faults) {
-	defer func() { recover() }() // already registered
-	kvdb.Register("verifmem", func(p *kvdb.KVParameter) (kvdb.Database, error) {
-		if db, ok := reg[p.DBPath]; ok {
+var (
+	registry   = map[string]*DB{}     // DBPath -> database ("reopen" sees the same data)
+	faultsFor  = map[string]*Faults{} // path prefix -> fault plan
+	registered bool
+)
+
+// Use declares that every database whose path starts with prefix belongs to the
+// scenario with fault plan f, and makes the engine name "verifmem" available to
+// kvdb.CreateKVInstance. It returns the registry of opened databases.
+func Use(prefix string, f *Faults) map[string]*DB {
+	faultsFor[prefix] = f
+	if !registered {
+		registered = true
+		kvdb.Register("verifmem", func(p *kvdb.KVParameter) (kvdb.Database, error) {
+			if db, ok := registry[p.DBPath]; ok {
+				return db, nil
+			}
+			var f *Faults
+			for pre, x := range faultsFor {
+				if len(p.DBPath) >= len(pre) && p.DBPath[:len(pre)] == pre {
+					f = x
+				}
+			}
+			db := New(f)
+			db.Name = p.DBPath
+			registry[p.DBPath] = db
 			return db, nil
-		}
-		db := New(f)
-		db.Name = p.DBPath
-		reg[p.DBPath] = db
-		return db, nil
-	})
+		})
+	}
+	return registry
 }
 
 func (d *DB) search(key []byte) (int, bool) {
